@@ -38,13 +38,18 @@ class RecDict(dict):
         super().__init__(*a, **k)
         self.reads = set()
         self.writes = set()
+        self.outside_reads = set()     # names read before anything wrote them during this execution
 
     def __getitem__(self, k):
         self.reads.add(k)
+        if k not in self.writes:
+            self.outside_reads.add(k)
         return super().__getitem__(k)
 
     def get(self, k, d=None):
         self.reads.add(k)
+        if k not in self.writes:
+            self.outside_reads.add(k)
         return super().get(k, d)
 
     def __setitem__(self, k, v):
@@ -117,6 +122,7 @@ TEMPLATES = {
     "AssignSub": ["guard", "rhs", "lsub"],
     "AssignLoop1": ["guard", "rhs", "lsub", "l0start", "l0stop"],
     "AssignLoop2": ["guard", "rhs", "l0start", "l0stop", "l1start", "l1stop"],
+    "AssignLoop2b": ["guard", "rhs", "l1stop"],      # outer bound reads an OUTSIDE variable named like the inner counter
     "Call0": ["guard", "arg0"],
     "Call1": ["guard", "arg0", "arg1", "kwA"],
     "Call2": ["guard", "arg0", "kwA", "kwB"],
@@ -164,6 +170,13 @@ def make_statement(tname, forms):
                     loops=[("i", ex["l0start"], P.Sum((ex["l0stop"], 2))),
                            ("j", ex["l1start"], P.Sum((ex["l1stop"], 1)))])
         ar.append("xa")
+        cnt = ["i", "j"]
+    elif tname == "AssignLoop2b":
+        st = Assign(id="s", assignee="xa", assignee_subscript=(P.Variable("i"),),
+                    expression=ex["rhs"], condition=cond,
+                    loops=[("i", 0, P.Sum((P.Variable("j"), 1))), ("j", 0, P.Sum((ex["l1stop"], 1)))])
+        ar.append("xa")
+        sc.append("j")
         cnt = ["i", "j"]
     elif tname == "Call0":
         st = AssignFunctionCall(id="s", assignees=(), function_id="<func>f", parameters=(ex["arg0"],),
@@ -229,7 +242,7 @@ def execute(stmt, state):
     except Exception as e:
         if type(e).__name__ not in ("FailStepException", "TransitionEvent", "_Err"):
             err = "%s: %s" % (type(e).__name__, e)
-    return rec.reads, rec.writes, err
+    return rec.reads, rec.writes, err, rec.outside_reads
 
 
 def check_statement(tname, forms):
@@ -247,17 +260,19 @@ def check_statement(tname, forms):
     all_r, all_w = set(), set()
     variants = set()
     for sname, state in states_for(sc, ar):
-        reads, writes, err = execute(stmt, state)
+        reads, writes, err, outside = execute(stmt, state)
         if err:
             fails.append(("harness-exec", "state %s: %s on %s" % (sname, err, stmt)))
             break
         variants.add(frozenset(reads))
         all_r |= reads
         all_w |= writes
-        bad_r = reads - set(cnt) - dr - dw
+        # a loop counter is exempt only while it is the loop's own variable: a read of that name before the
+        # loop has bound it is a read of an outside variable
+        bad_r = (reads - set(cnt) - dr - dw) | ((outside & set(cnt)) - dr - dw)
         bad_w = writes - set(cnt) - dw
         if bad_r and not any(f[0].startswith("undeclared-read") for f in fails):
-            slot = sorted({v.rsplit("_", 1)[0] for v in bad_r})
+            slot = sorted({v.rsplit("_", 1)[0] if "_" in v else "outside:" + v for v in bad_r})
             fails.append(("undeclared-read(%s)" % ",".join(slot),
                           "state %s: statement '%s' read %s; declared reads %s writes %s" % (
                               sname, stmt, sorted(bad_r), sorted(dr), sorted(dw))))
